@@ -15,6 +15,13 @@ var zzC07Texts = []string{
 	"if true\n\tprint 1\nend\n",
 	"// only a comment\n",
 	"",
+	// texts that agree with the formatter's output line for line up to some point and then go on or stop
+	"print 1\n\n\n",
+	"print 1\n\n",
+	"print 1\nprint 2\n",
+	"print 1\n\n\n\nprint 2\n",
+	"if true\n    print 1\nend\n\n\n\n",
+	"x := 1\nprint x\n// tail\n\n\n",
 }
 
 func ZZC07Check() {
